@@ -638,3 +638,50 @@ fn c08_pool_new_and_drop() {
     kani::cover!(fails);
     std::mem::forget(sq);
 }
+
+//@ prop: C08
+//@ tier: quick
+//@ what: ReadBufPool::new for a pool with more than 256 buffers: entries 255, 256, 300 and the last one are offered under their OWN 16-bit id (i), at base + i*buf_size -- buffer ids are not truncated to 8 bits -- and the tail is the pool size
+//@ bound: pool_size 512, buf_size 1; four entries inspected (the fill loop runs 512 times)
+//@ encodes: io_uring::io::ReadBufPool::new (fill loop)
+//@ stubs: io_uring::io::page_size (sysconf FFI) -> 4096; crate::lock -> try_lock model; <core::io::CustomOwner as Drop>::drop -> no-op
+//@ timeout: 1500
+#[kani::proof]
+#[kani::unwind(514)]
+#[kani::stub(super::page_size, page_size_model)]
+#[kani::stub(crate::lock, crate::verif_stubs::lock_model)]
+#[kani::stub(<core::io::CustomOwner as core::ops::Drop>::drop, crate::verif_stubs::custom_owner_drop_noop)]
+fn c08_pool_new_large() {
+    let mut t = k::base_table();
+    t.io_uring_register = Some(pool_register);
+    k::install(t);
+    k::sq_set(0, 0);
+    let sq = SubmissionQueue(crate::io_uring::sq::verif_c04::submissions_in_place(2, false, false));
+    unsafe {
+        POOL_REG_CALLS.v = 0;
+        POOL_REG_FAILS.v = false;
+    }
+    let pool = match ReadBufPool::new(sq.clone(), 512, 1) {
+        Ok(p) => p,
+        Err(e) => {
+            std::mem::forget(e);
+            assert!(false, "registration succeeds");
+            return;
+        }
+    };
+    let ring = pool.ring_addr.cast::<u8>();
+    let entry = |i: usize| unsafe {
+        let e = ring.add(i * 16);
+        (e.cast::<u64>().read(), e.add(8).cast::<u32>().read(), e.add(12).cast::<u16>().read())
+    };
+    let base = pool.bufs_addr as u64;
+    assert!(entry(255) == (base + 255, 1, 255));
+    assert!(entry(256) == (base + 256, 1, 256), "buffer 256 offered under id 256");
+    assert!(entry(300) == (base + 300, 1, 300));
+    assert!(entry(511) == (base + 511, 1, 511), "the last buffer is offered too");
+    assert!(unsafe { ring.add(14).cast::<u16>().read() } == 512, "tail = pool size");
+    assert!(pool.tail_mask == 511);
+    kani::cover!(true);
+    std::mem::forget(pool);
+    std::mem::forget(sq);
+}
